@@ -19,12 +19,15 @@ from ..tlaparse import to_json
 from ..world import canonical_dir_bytes
 
 FILES = {"foo": b"foo\n", "data/bar": b"bar\n", "data/sub/baz": b"baz baz\r\n", "data/sub/deep/qux": b"", "other/x": b"x\x00x",
-         "top/in/a": b"a below top\n", "top/in/s/b": b"b below top\n"}
-DIRS = ["data", "data/sub", "data/sub/deep", "other", "void", "top", "top/in", "top/in/s", "top/e"]
+         "top/in/a": b"a below top\n", "top/in/s/b": b"b below top\n",
+         "hollow/p/q/r": b"the only file, three levels down\n"}
+DIRS = ["data", "data/sub", "data/sub/deep", "other", "void", "top", "top/in", "top/in/s", "top/e",
+        "hollow", "hollow/p", "hollow/p/q"]
+# hollow: a directory object whose only file sits three levels down - the directories between hold no file of their own
 # void, top/e: the empty directory object; top/in, top/e: lazy directories below the explicit directory `top`
 LAZY = {"data": ["data/bar", "data/sub/baz", "data/sub/deep/qux"], "other": ["other/x"], "void": [],
-        "top/in": ["top/in/a", "top/in/s/b"], "top/e": []}
-INNER = ["data/sub", "data/sub/deep", "top/in/s"]     # directories inside a directory object
+        "top/in": ["top/in/a", "top/in/s/b"], "top/e": [], "hollow": ["hollow/p/q/r"]}
+INNER = ["data/sub", "data/sub/deep", "top/in/s", "hollow/p", "hollow/p/q"]     # directories inside a directory object
 EXPLICIT = ["top"]                                      # directories both indexes list themselves
 FILTERS = {
     "all": lambda k: True,
